@@ -13,7 +13,7 @@
 (* entries.  TLC checks the monitors of Monitors.tla / Format.tla in every *)
 (* reachable state; the same monitors judge real traces in Trace.tla.      *)
 (***************************************************************************)
-EXTENDS Monitors, TLC
+EXTENDS Validate, TLC
 
 CONSTANTS TreeSet,        \* the source trees the environment may switch between
           OptSet,         \* settings [H, M, S] a backup may be started with
@@ -461,6 +461,19 @@ Inv_GcExact ==
         ELSE /\ Bands(fs) = Bands(gc.fs0) \ gc.del
              /\ PresentBlocks(fs) = Referenced(fs, Bands(fs)) \cap PresentBlocks(gc.fs0)
              /\ ~fs.lock
+
+\* C09: on every archive fault-free operation can leave (interrupted backups counted once their
+\* header is readable) the validator is silent ...
+Inv_ValidateQuietOnHealthy ==
+    (Quiet /\ \A b \in Bands(fs) : HeadOK(fs, b)) => (~ValidatorReports(fs, FALSE) /\ ~ValidatorReports(fs, TRUE))
+
+\* ... and after any single damage that matters and does not leave a legal state it reports
+\* (full validation; quick validation for missing files)
+Inv_ValidateAdequate ==
+    Quiet => \A d \in Damages(fs) :
+                LET f == ApplyDamage(fs, d) IN
+                (DamageMatters(fs, f) /\ FormatViol(f) # {}) =>
+                    (ValidatorReports(f, FALSE) /\ (d.how = "delete" => ValidatorReports(f, TRUE)))
 
 \* C07 as an action property: a backup never changes or removes an existing non-empty file,
 \* and a new band id is above every existing one
